@@ -11,7 +11,13 @@
 enum { CK_BOTH, CK_GROUPLESS, CK_SECTIONS, CK_MULTILINE, CK_EMPTYVAL, CK_EMPTYSEC, CK_MALFORMED, CK_MALF_TEXTAFTER, CK_MALF_EMPTYSEC, CK_MALF_NODELIM, CK_N };
 static const char *CKN[CK_N] = { "both", "group-less only", "sections only", "multi-line values", "empty value", "empty section", "malformed line [x", "malformed line [x] y", "malformed line []", "malformed line key text" };
 #define NFILES 6   /* 0 usr main, 1 etc main, 2 usr a.conf, 3 usr b.conf, 4 etc a.conf, 5 etc b.conf */
-static const char *FREL[NFILES] = { "/usr/etc/cfg.conf", "/etc/cfg.conf", "/usr/etc/cfg.conf.d/a.conf", "/usr/etc/cfg.conf.d/b.conf", "/etc/cfg.conf.d/a.conf", "/etc/cfg.conf.d/b.conf" };
+static const char *FRELN[2][NFILES] = {
+  { "/usr/etc/cfg.conf", "/etc/cfg.conf", "/usr/etc/cfg.conf.d/a.conf", "/usr/etc/cfg.conf.d/b.conf", "/etc/cfg.conf.d/a.conf", "/etc/cfg.conf.d/b.conf" },
+  /* a configuration name with dots in it (reverse-DNS style): the suffix is what follows the LAST dot */
+  { "/usr/etc/org.example.cfg.conf", "/etc/org.example.cfg.conf", "/usr/etc/org.example.cfg.conf.d/a.conf", "/usr/etc/org.example.cfg.conf.d/b.conf", "/etc/org.example.cfg.conf.d/a.conf", "/etc/org.example.cfg.conf.d/b.conf" } };
+static const char *CFGNAME[2] = { "cfg.conf", "org.example.cfg.conf" }, *CFGBASE[2] = { "cfg", "org.example.cfg" };
+static int nsel;
+#define FREL FRELN[nsel]
 static int maxdev = 1;
 static int present, kindof[NFILES], dsel, csel, cmd, single;
 static char rootdir[300], tool[600];
@@ -26,6 +32,7 @@ static void gen(void)
   present = single ? 1 : mc_choose(1 << NFILES);
   dsel = mc_choose(3); csel = mc_choose(2); cmd = mc_choose(single ? 2 : 3);
   for (int i = 0; i < NFILES; i++) kindof[i] = ((present >> i) & 1) ? mc_choose_dev(CK_N) : 0;
+  nsel = mc_choose_dev(2);       /* deviation: the dotted configuration name */
 }
 
 static void content(int id, int kind, sbuf *b)
@@ -125,18 +132,19 @@ static void exec(void)
 {
   sbuf sig = {0}, out = {0}, err = {0}, want = {0}, got = {0};
   char path[NFILES][500];
+  for (int o = 0; o < NFILES; o++) { char op[500]; snprintf(op, sizeof op, "%s%s", rootdir, FRELN[!nsel][o]); unlink(op); }   /* files of the other name: none */
   for (int i = 0; i < NFILES; i++) {
     snprintf(path[i], sizeof path[i], "%s%s", rootdir, FREL[i]);
     if ((present >> i) & 1) { sbuf c = {0}; content(i, kindof[i], &c); mc_write_file(path[i], c.s, c.len); sb_free(&c); } else unlink(path[i]);
   }
-  sb_printf(&sig, "econftool --delimiters=\"%s\" --comment=\"%s\" %s %s files={", DARG[dsel], CARG[csel], CMD[cmd], single ? "<root>/usr/etc/cfg.conf (absolute)" : "cfg.conf");
+  sb_printf(&sig, "econftool --delimiters=\"%s\" --comment=\"%s\" %s %s files={", DARG[dsel], CARG[csel], CMD[cmd], single ? (nsel ? "<root>/usr/etc/org.example.cfg.conf (absolute)" : "<root>/usr/etc/cfg.conf (absolute)") : CFGNAME[nsel]);
   for (int i = 0; i < NFILES; i++) if ((present >> i) & 1) sb_printf(&sig, "%s:%s ", FREL[i], CKN[kindof[i]]);
   sb_puts(&sig, "}");
   snprintf(mc_case_sig, sizeof mc_case_sig, "%s", sig.s);
   mc_log("%s\n", sig.s);
   char darg[64], carg[32];
   snprintf(darg, sizeof darg, "--delimiters=%s", DARG[dsel]); snprintf(carg, sizeof carg, "--comment=%s", CARG[csel]);
-  char *argv[8] = { tool, darg, carg, (char *)(uintptr_t)CMD[cmd], single ? path[0] : (char *)"cfg.conf", NULL };
+  char *argv[8] = { tool, darg, carg, (char *)(uintptr_t)CMD[cmd], single ? path[0] : (char *)(uintptr_t)CFGNAME[nsel], NULL };
   int st = run_tool(argv, &out, &err);
   mc_st->libcalls++;
   mc_log("exit status 0x%x\nstdout:\n%s\nstderr:\n%s\n", st, out.s, err.s);
@@ -148,9 +156,9 @@ static void exec(void)
   snprintf(usr, sizeof usr, "%s/usr/etc", rootdir); snprintf(etc, sizeof etc, "%s/etc", rootdir);
   econf_file *kf = NULL; econf_file **hist = NULL; size_t hn = 0;
   econf_err rc;
-  if (cmd == 2) rc = econf_readDirsHistory(&hist, &hn, usr, etc, "cfg", ".conf", DLIB[dsel], CARG[csel]);
+  if (cmd == 2) rc = econf_readDirsHistory(&hist, &hn, usr, etc, CFGBASE[nsel], ".conf", DLIB[dsel], CARG[csel]);
   else if (single) rc = econf_readFile(&kf, path[0], DLIB[dsel], CARG[csel]);
-  else rc = econf_readDirs(&kf, usr, etc, "cfg", ".conf", DLIB[dsel], CARG[csel]);
+  else rc = econf_readDirs(&kf, usr, etc, CFGBASE[nsel], ".conf", DLIB[dsel], CARG[csel]);
   mc_st->libcalls++;
   char *efn = NULL; uint64_t eln = 0;
   if (rc) econf_errLocation(&efn, &eln);
@@ -208,7 +216,7 @@ int main(int argc, char **argv)
   if (!libdir) mc_die("VERIF_LIBDIR not set");
   snprintf(tool, sizeof tool, "%s/econftool", libdir);
   snprintf(rootdir, sizeof rootdir, "%s/root", mc_work);
-  char cmdl[900]; snprintf(cmdl, sizeof cmdl, "mkdir -p %s/usr/etc/cfg.conf.d %s/etc/cfg.conf.d", rootdir, rootdir);
+  char cmdl[900]; snprintf(cmdl, sizeof cmdl, "mkdir -p %s/usr/etc/cfg.conf.d %s/etc/cfg.conf.d %s/usr/etc/org.example.cfg.conf.d %s/etc/org.example.cfg.conf.d", rootdir, rootdir, rootdir, rootdir);
   if (system(cmdl) != 0) mc_die("mkdir");
   mc_split = 2;
   if (mc_opt.case_id) return mc_replay(gen, exec, mc_opt.case_id);
